@@ -641,7 +641,20 @@ thread_local! {
 /// Should the evaluator behave as if the user pressed Ctrl-C when
 /// `ticks` is reached? Consulted by the eval loop (cfg-gated).
 pub(crate) fn interrupt_at_tick(ticks: usize) -> bool {
-    INTERRUPT_AT.with(|v| v.borrow().contains(&ticks))
+    INTERRUPT_AT.with(|v| v.borrow().contains(&ticks)) || env_interrupt_ticks().contains(&ticks)
+}
+
+/// Ticks given in `GARDEN_VERIF_INTERRUPT_AT` (comma separated), so
+/// interrupts can also be injected into real sessions (`garden json`,
+/// `reftest-json-session`, nREPL), which run the evaluator on their
+/// own threads.
+fn env_interrupt_ticks() -> &'static [usize] {
+    static TICKS: std::sync::OnceLock<Vec<usize>> = std::sync::OnceLock::new();
+    TICKS.get_or_init(|| {
+        std::env::var("GARDEN_VERIF_INTERRUPT_AT")
+            .map(|s| s.split(',').filter_map(|x| x.trim().parse().ok()).collect())
+            .unwrap_or_default()
+    })
 }
 
 fn frames_json(env: &crate::env::Env) -> J {
